@@ -122,6 +122,30 @@ def illegal_types_worker(seed):
         r["bad"] = {"kind": "constant-type", "case": "non-primitive constant types", "diff": diff}
     return r
 
+@core.safe
+def literal_forms_worker(seed):
+    """The stored value is the exact rational the literal denotes, whatever form the literal has."""
+    import pydsdl
+    from fractions import Fraction as Fr
+    cases = [("float64", "1e-3", Fr(1, 1000)), ("float64", "0.001", Fr(1, 1000)), ("float32", "25e-1", Fr(5, 2)), ("float16", "1.5E-2", Fr(3, 200)),
+             ("uint8", "300000e-5", Fr(3)), ("int16", "-12_000e-3", Fr(-12)), ("float64", "1e-400", Fr(1, 10 ** 400)), ("float64", ".1", Fr(1, 10)),
+             ("float64", "7E+2", Fr(700)), ("uint16", "0x_ff_ff", Fr(65535)), ("uint8", "0b1111_1111", Fr(255)), ("int8", "-0o200", Fr(-128)),
+             ("float32", "1 / 3", Fr(1, 3)), ("float64", "0.1 + 0.2", Fr(3, 10)), ("uint64", "18_446_744_073_709_551_615", Fr(2 ** 64 - 1))]
+    diff = []
+    for ty, lit, want in cases:
+        with dsdlio.Tree({"ns/A.1.0.dsdl": "%s X = %s\n@sealed\n" % (ty, lit)}, "c12l") as tr:
+            status, res, _ = dsdlio.read_ns(tr.path("ns"))
+        if status != "ok":
+            diff.append(("compliant initialiser rejected", ty, lit, str(res)[-120:]))
+        else:
+            got = res[0].constants[0].value.native_value
+            if Fr(got) != want:
+                diff.append(("stored value (rounded or converted)", ty, lit, str(got), str(want)))
+    r = {"nt": True, "key": "literal-forms"}
+    if diff:
+        r["bad"] = {"kind": "constant-literal", "case": "literal forms", "diff": diff[:6]}
+    return r
+
 def run(ctx):
     ctx.rule = ("TLC enumerates every constant type (bool, (u)int1..64 in both cast modes, float16/32/64 in both) with ~100 "
                 "symbolic values each: s*2^e + o (+1/3) for e around 0, the type's width and the float16 limit, the largest "
@@ -131,6 +155,7 @@ def run(ctx):
     ctx.assumptions = ["TLC's evaluation of the specification", "C04 establishes that the boundary expressions evaluate exactly"]
     c02.run_cfg(ctx, "Constants", "Constants.cfg", worker, "const", shuffle=True)
     c02.consume(ctx, core.pmap(illegal_types_worker, [0], procs=1), "illegal")
+    c02.consume(ctx, core.pmap(literal_forms_worker, [0], procs=1), "literals")
     ctx.sample({"type": "int13", "value": "-(2 ** 12) - 1", "expected": "rejected"})
 
 def replay(ctx, rec):
